@@ -8,7 +8,7 @@ HERE = os.path.dirname(os.path.dirname(os.path.abspath(__file__)))
 
 # id -> (technique, level text, level note, design ref)
 CHECKS = {
-    'C01': ('differential runtime oracle (PIT eval vs export) + in-situ contract on _time_mask + structural monitor; exhaustive time-mask pattern sweep, random G-PIT programs',
+    'C01': ('differential runtime oracle (PIT eval vs export) + in-situ contract on _time_mask (also while the repository test-suite runs as a workload) + structural monitor; exhaustive time-mask pattern sweep, random G-PIT programs incl. layers invoked twice in different sharing groups and shared / per-call-site padding modules',
             'Held on every execution explored: the complete (K 1..9, d 1..3, r, g) time-pattern space of a causal Conv1d and hundreds (quick) / thousands (thorough) of random grammar programs x mask assignments, each compared output-for-output with its export. Exploration, not proof: inputs and programs are sampled.',
             'torch.fx, PyTorch kernels, 4 random inputs per case, tolerance 1e-4*(1+max|y|)', '5/C01'),
     'C02': ('bit-exact differential oracle (torch.equal) MPS eval vs export + precision / producer-consumer monitors on the exported fx graph',
@@ -29,37 +29,37 @@ CHECKS = {
     'C07': ('differential oracle vs a deep copy of the seed, training-flag snapshots, SHA-256 of the user model state_dict, immediate-export architecture and function comparison',
             'Held on every explored PIT / MPS / SuperNet import case (fold on/off, train/eval hand-over, user-placed layers, identical-copy and hard-selected branches).',
             'user object .training flag not asserted (DESIGN sec. 7); unfused import compared bit-exactly', '5/C07'),
-    'C08': ('invariant hooks on live state after every parameter assignment + export/forward/shape oracle + in-situ _time_mask contract; exhaustive K 1..12 time-mask sweep',
+    'C08': ('invariant hooks on live state after every parameter assignment + export/forward/shape oracle + in-situ _time_mask and features-mask contracts (also under the optimiser-driven repository tests); exhaustive K 1..12 time-mask sweep',
             'Held on the complete (K 1..12, d 1..3, r 0..K, g 0..len(gamma)) sweep and on adversarial real mask vectors (0, negative, 1e30, 3e38, threshold values) on random programs.',
             'NaN/inf not assigned; frozen time maskers not assigned', '5/C08'),
     'C09': ('program-level reference R-alive vs five independent reports per layer + dynamic pre-hook zero check + exported forward',
             'Held on all 36 concat origin combinations x consumers x families and on random DAGs / excluded layers / user-placed layers; the PIT masker-sharing defects found (excluded layers, sums with / depthwise after a concat, concat into an output) were repaired.',
             'R-alive takes each layer\'s own binarised mask as given; dynamic check one-sided', '5/C09'),
-    'C10': ('history + offline checker: class-level wrappers on the sampling functions log every sampling event; rules of the statement applied per event; summary/export vs R-select at the end of each history',
+    'C10': ('history + offline checker: class-level wrappers on the sampling functions log every sampling event (generated histories and the repository MPS / SuperNet tests as a workload); rules of the statement applied per event; summary/export vs R-select at the end of each history',
             'Held on every recorded sampling event of random option/forward interleavings on stand-alone quantizers / combiners and whole models; SuperNet soft-in-eval is a known finding.',
             'rules keyed on the sampler that actually ran', '5/C10'),
     'C11': ('lock-step executable reference model R-train over call histories closed under abstract-state reachability',
             'Held after every call of every explored history (BFS closure to length 3/4 + random continuation to 8) on PIT, MPS per-layer/per-channel and SuperNet models.',
             'frozen components identified by an independent program-level analysis', '5/C11'),
-    'C12': ('oracle battery on the real cost: finite/non-negative, bit-exact independence from weights and data, autograd vs finite differences, monotonicity under ordered mask vectors, fully-open == original',
+    'C12': ('oracle battery on the real cost: finite/non-negative (also in situ on every model cost computed while the repository tests run), bit-exact independence from weights and data, autograd vs finite differences, monotonicity under ordered mask vectors, fully-open == original (conversion examples of 1..4 samples, layers invoked twice)',
             'Held on every explored (model, spec) pair for PIT, SuperNet, MPS and ODiMO_MPS with its defaults; one corner (zero gradient through the detached consumer path when a layer sees 0 input features) is a known finding.',
             'operational definition of "raises the metric": +1e-3 finite difference', '5/C12'),
-    'C13': ('float64 evaluation of the stated inequalities on the real quantizers: exhaustive level-boundary sweep, seeded tensors, in-situ wrappers on the three forward methods inside MPS models',
+    'C13': ('float64 evaluation of the stated inequalities on the real quantizers: exhaustive level-boundary sweep, seeded tensors, in-situ wrappers on the three forward methods inside MPS models and under the repository MPS tests (real optimiser runs)',
             'Held on the complete boundary sweep for bits {2,3,4,8} and on all seeded / in-situ tensors.',
             '4 ulp float32 slack on round-off dependent comparisons', '5/C13'),
     'C14': ('forward hooks on the integer layers + per-layer R-int bound against the fake-quantized counterpart + range monitors on stored state and activations',
             'Held on every explored (program, precisions, backend, options) case for MATCH and MAUPITI incl. bias-free layers and dilation on either axis.',
             'integerize_arch applied to a deep copy of the export; bound = 1 level + own scale/shift approximation error', '5/C14'),
-    'C15': ('exhaustive enumeration against the order-independent reference R-lookup + icontract postcondition on CostSpec.__getitem__ in situ',
+    'C15': ('exhaustive enumeration against the order-independent reference R-lookup + icontract postcondition on CostSpec.__getitem__ in situ (generated models and the whole repository test-suite as a workload)',
             'Exhaustive: every registration order of every pattern subset x every truth assignment x both defaults, the same with one function object shared by two patterns (5700 lookups), plus in-situ lookups made by real conversions.',
             'user constraint = arbitrary predicate (stride==2 / in_features==7)', '5/C15'),
-    'C16': ('direct calls of every registered cost function on grid sweeps with finiteness / sign / monotonicity / identity / rejection oracles; helper exactness on integer pairs',
+    'C16': ('direct calls of every registered cost function on grid sweeps with finiteness / sign / monotonicity / identity / rejection oracles; helper exactness on integer pairs; in-situ finite/non-negative contract on every built-in cost function call made while the repository test-suite runs',
             'Quick: strided grids (every tile boundary +-1); thorough: full grids (channels 1..130, kernels, output sizes 1..33, bits), fractional channel counts with gradients, all helpers, rejection probes.',
             'functions called directly on specs satisfying their own pattern', '5/C16'),
     'C17': ('observation-snapshot oracle (incl. an as-is first forward straight after load_state_dict) across save/load into a freshly configured wrapper, incl. real two-process crash (os._exit) / restart round trips',
             'Held on every explored checkpoint (k 0..5 steps, option changes, train/eval) for PIT / MPS / SuperNet, in-process and across a real process crash.',
             'configuration re-applied through the public API; same snapshot call on both sides', '5/C17'),
-    'C18': ('twin-model oracle over observer-call sequences (all sequences up to length 2/3 + sampled longer ones) incl. as-is cost value / differentiability / gradient, exports pairwise identical, search continues bit-identically',
+    'C18': ('twin-model oracle over observer-call sequences (all sequences up to length 2/3 + sampled longer ones) incl. as-is cost value / differentiability / gradient, exports pairwise identical, search continues bit-identically; in-situ before/after contract (state_dict bit-wise, training flags, requires_grad) on every outermost export / summary / get_cost call, also under the repository tests',
             'Held on every explored sequence over {export, export(add_bn=False), summary, cost, get_cost, spec switch, forward} for the three methods in train and eval mode.',
             'Gumbel forwards seeded on both twins; as-is gradient comparison one-sided; per-channel MPS export (documented crash) not driven', '5/C18'),
     'C19': ('float64 reference R-duccio vs the real regularizers on stub and real models; effective strength recovered by differentiation; complete (epoch, n_epochs) grid',
